@@ -119,6 +119,7 @@ fn main() {
                 "adsr" => graphrun::run(&g, &mut adsr::GraphTarget::new(&g.init_proj), seed, thorough),
                 "lfo" => graphrun::run(&g, &mut lfo::GraphTarget::new(), seed, thorough),
                 "quant" => graphrun::run(&g, &mut quant::GraphTarget::new(), seed, thorough),
+                "glide" => graphrun::run(&g, &mut glide::GraphTarget::new(), seed, thorough),
                 "ribbon100" => graphrun::run(&g, &mut ribbon::GraphTarget::new(100), seed, thorough),
                 "ribbon500" => graphrun::run(&g, &mut ribbon::GraphTarget::new(500), seed, thorough),
                 #[cfg(feature = "aux-hooks")]
